@@ -38,7 +38,7 @@ TIES = {
         "gen": "ProcSim/Gen/AccPlan.lean",
         "proofs": "ProcSim/Props/AccPlanGen.lean",
         "gen_module": "ProcSim.Gen.AccPlan",
-        "theorems": ["gen_add_rd_access", "gen_add_wr_access", "gen_add_access", "gen_build_acc_plan"],
+        "theorems": ["gen_add_rd_access", "gen_add_wr_access", "gen_add_access", "gen_build_acc_plan", "C01_gen_plan_requests"],
     },
     "sim_utils": {
         "gen": "ProcSim/Gen/SimUtils.lean",
